@@ -1396,7 +1396,12 @@ def run(ctx):
     if ctx.replay:
         with open(ctx.replay if os.path.isabs(ctx.replay) else os.path.join(ROOT, ctx.replay)) as f:
             j = json.load(f)
-        _run_single(ctx, j["input"] if "input" in j else j, os.path.basename(ctx.replay))
+        if "broken_correspondence" in j:      # a replay of kind obligation-no-longer-checks
+            for k, c in enumerate(j["broken_correspondence"]):
+                if isinstance(c.get("input"), dict):
+                    _run_single(ctx, c["input"], "%s#%d" % (os.path.basename(ctx.replay), k))
+        else:
+            _run_single(ctx, j["input"] if "input" in j else j, os.path.basename(ctx.replay))
         return
     if os.path.isdir(cdir):
         for fn in sorted(os.listdir(cdir)):
@@ -1406,8 +1411,10 @@ def run(ctx):
                 _run_single(ctx, j["input"] if "input" in j else j, fn)
     if not ok:
         return
+    if ctx.tier == "thorough":
+        L.leanchecker(ctx, MODULES)
     n_shards = ctx.scale(16, 48)
-    per = ctx.scale(10, 70)
+    per = ctx.scale(10, 60)
     deadline = ctx.scale(55, 900)
     args = [(ctx.seed, i, per, deadline, ctx.tier) for i in range(n_shards)]
     run_shards(ctx, shard, args)
